@@ -114,8 +114,9 @@ PoolAuxNext(a, e) ==
 D3 == <<1, 2, 3>>
 SlicePairs == IF Wide THEN {<<0, 0>>, <<0, 3>>, <<1, 2>>, <<2, 1>>, <<0, 4>>, <<3, 3>>, <<4, 4>>, <<4, 2>>, <<1, 3>>}
               ELSE {<<0, 0>>, <<0, 3>>, <<1, 2>>, <<2, 1>>, <<0, 4>>, <<3, 3>>}
-\* aux = [next, kind (slot -> "e" | "s"), g (slot -> group), grp (group -> G0-like), ng, bad]
-ZceAux0 == [next |-> 2, kind |-> [s \in {1} |-> "e"], g |-> [s \in {1} |-> 1], grp |-> [x \in {1} |-> G0], ng |-> 1, bad |-> FALSE]
+\* aux = [next, kind (slot -> "e" | "s"), d (slot -> bytes), g (slot -> group), grp (group -> G0-like), ng, bad]
+ZceAux0 == [next |-> 2, kind |-> [s \in {1} |-> "e"], d |-> [s \in {1} |-> D3], g |-> [s \in {1} |-> 1], grp |-> [x \in {1} |-> G0],
+            ng |-> 1, bad |-> FALSE]
 Ents(a) == {s \in DOMAIN a.kind : a.kind[s] = "e"}
 ZceOps ==
   (IF Cardinality(DOMAIN aux.kind) >= 3 THEN {}
@@ -131,26 +132,29 @@ ZceAuxNext(a, e) ==
   LET b0 == [a EXCEPT !.bad = FALSE]
       a1 == CASE e.op = "clone" ->
                    LET gg == a.g[e.s] IN
-                   [b0 EXCEPT !.next = @ + 1, !.kind = FnWith(@, e.t, a.kind[e.s]), !.g = FnWith(@, e.t, gg),
+                   [b0 EXCEPT !.next = @ + 1, !.kind = FnWith(@, e.t, a.kind[e.s]), !.d = FnWith(@, e.t, a.d[e.s]), !.g = FnWith(@, e.t, gg),
                               !.grp[gg] = IF a.kind[e.s] = "e" THEN [@ EXCEPT !.ents = @ + 1] ELSE [@ EXCEPT !.sls = @ + 1]]
-              [] e.op = "slice" ->
-                   IF SliceValid(D3, e.a, e.b)      \* (on an appended entry the model is approximate: used for pruning only)
-                   THEN [b0 EXCEPT !.next = @ + 1, !.kind = FnWith(@, e.t, "s"), !.g = FnWith(@, e.t, a.g[e.s]), !.grp[a.g[e.s]].sls = @ + 1]
-                   ELSE b0
+              [] e.op = "slice" ->      \* the slot number is used up either way; the slice exists only for a valid range (Z2)
+                   IF SliceValid(a.d[e.s], e.a, e.b)
+                   THEN [b0 EXCEPT !.next = @ + 1, !.kind = FnWith(@, e.t, "s"), !.d = FnWith(@, e.t, SliceOf(a.d[e.s], e.a, e.b)),
+                                   !.g = FnWith(@, e.t, a.g[e.s]), !.grp[a.g[e.s]].sls = @ + 1]
+                   ELSE [b0 EXCEPT !.next = @ + 1]
               [] e.op \in {"append", "fromm"} ->
-                   LET t == IF e.op = "append" THEN e.t ELSE e.s IN
-                   [b0 EXCEPT !.next = @ + 1, !.kind = FnWith(@, t, "e"), !.g = FnWith(@, t, a.ng + 1), !.grp = FnWith(@, a.ng + 1, G0), !.ng = @ + 1]
+                   LET t == IF e.op = "append" THEN e.t ELSE e.s
+                       dd == IF e.op = "append" THEN a.d[e.s] \o e.x ELSE e.d IN
+                   [b0 EXCEPT !.next = @ + 1, !.kind = FnWith(@, t, "e"), !.d = FnWith(@, t, dd), !.g = FnWith(@, t, a.ng + 1),
+                              !.grp = FnWith(@, a.ng + 1, G0), !.ng = @ + 1]
               [] e.op = "drop" ->
                    LET gg == a.g[e.s] IN
-                   [b0 EXCEPT !.kind = FnWithout(@, e.s), !.g = FnWithout(@, e.s),
+                   [b0 EXCEPT !.kind = FnWithout(@, e.s), !.d = FnWithout(@, e.s), !.g = FnWithout(@, e.s),
                               !.grp[gg] = IF a.kind[e.s] = "e" THEN [@ EXCEPT !.ents = @ - 1, !.drops = @ + 1] ELSE [@ EXCEPT !.sls = @ - 1]]
               [] OTHER -> b0
   IN [a1 EXCEPT !.bad = \E s \in Ents(a1) : ~RcIdeal(a1.grp[a1.g[s]], RcAsIs(a1.grp[a1.g[s]]))]
 
 ZcrOps ==
-  {[op |-> "seek", t |-> 1, p |-> p] : p \in (IF Wide THEN {0, 2, 3, 4, -1} ELSE {0, 2, 4})}
-  \cup {[op |-> "rexact", t |-> 1, n |-> n] : n \in (IF Wide THEN {0, 2, 3, 4, -1} ELSE {0, 2, 4})}
-  \cup {[op |-> "peek", t |-> 1, n |-> n] : n \in (IF Wide THEN {0, 1, 4, -1} ELSE {1, 4})}
+  {[op |-> "seek", t |-> 1, p |-> p] : p \in (IF Wide THEN {0, 2, 3, 4, -1} ELSE {0, 2, 3, 4})}
+  \cup {[op |-> "rexact", t |-> 1, n |-> n] : n \in (IF Wide THEN {0, 2, 3, 4, -1} ELSE {0, 2, 3, 4})}
+  \cup {[op |-> "peek", t |-> 1, n |-> n] : n \in (IF Wide THEN {0, 1, 3, 4, -1} ELSE {1, 3, 4})}
   \cup {[op |-> "read", t |-> 1, n |-> n] : n \in (IF Wide THEN {0, 1, 2, 5} ELSE {0, 2, 5})}
   \cup {[op |-> "aread", t |-> 1, n |-> n] : n \in (IF Wide THEN {0, 2, 5} ELSE {2})}
   \cup {[op |-> "rrem", t |-> 1]}
